@@ -24,7 +24,7 @@ ASSUMPTIONS = [
 ]
 BUDGET = {
     "quick": {"examples": 200, "workers": 8, "time_cap": 80},
-    "thorough": {"examples": 6000, "workers": 14, "time_cap": 1500},
+    "thorough": {"examples": 6000, "workers": 14, "time_cap": 900},
 }
 
 
